@@ -8,8 +8,9 @@ IsEvent(e) == l <= TraceLen /\ Ev.e = e /\ l' = l + 1 /\ UNCHANGED n
 THost == IsEvent("Host") /\ HostOK(Ev)
 TWire == IsEvent("Wire") /\ WireOK(Ev)
 TExtract == IsEvent("Extract") /\ ExtractOK(Ev)
+TUpPacket == IsEvent("UpPacket") /\ UpPacketOK(Ev)
 TReset == IsEvent("Reset")
-TNext == THost \/ TWire \/ TExtract \/ TReset
+TNext == THost \/ TWire \/ TExtract \/ TUpPacket \/ TReset
 TraceSpec == TInit /\ [][TNext]_tvars
 TraceAccepted ==
     LET d == TLCGet("stats").diameter IN
